@@ -85,11 +85,11 @@ def cases(tier, seed):
             for i in range(n):
                 rng = rng_for('C14ord', seed, name, i)
                 yield {'kind': 'joins', 'complex': name, 'order': [int(v) for v in rng.permutation(len(joins))], 'repeat': None, 'seed': seed, 'idx': i}
-    for i in range({'quick': 40, 'thorough': 800}[tier]):
+    for i in range({'quick': 40, 'thorough': 2400}[tier]):
         yield {'kind': 'split', 'seed': seed, 'idx': i}
-    for i in range({'quick': 30, 'thorough': 600}[tier]):
+    for i in range({'quick': 30, 'thorough': 1800}[tier]):
         yield {'kind': 'detect', 'seed': seed, 'idx': i}
-    for i in range({'quick': 12, 'thorough': 200}[tier]):
+    for i in range({'quick': 12, 'thorough': 600}[tier]):
         yield {'kind': 'detached', 'seed': seed, 'idx': i}
 
 _state = {}
